@@ -737,7 +737,7 @@ func (c *checker) handleViolations(bin string, br *batchResult, extraEnv []strin
 		if e == "VERIF_POINTS=1" {
 			o.churnBias = true
 		}
-		if strings.HasPrefix(e, "VERIF_GCPERCENT=") {
+		if strings.HasPrefix(e, "VERIF_GCPERCENT=") || e == "VERIF_GROWBIAS=1" {
 			o.growBias = true
 		}
 	}
@@ -786,7 +786,7 @@ func (c *checker) handleViolations(bin string, br *batchResult, extraEnv []strin
 		}
 		confirmTries := 1
 		for _, e := range extraEnv {
-			if strings.HasPrefix(e, "VERIF_GCPERCENT=") {
+			if strings.HasPrefix(e, "VERIF_GCPERCENT=") || e == "VERIF_GCASYNC=1" {
 				confirmTries = 10 // the background collector's timing is not under the simulator's control
 			}
 		}
@@ -854,7 +854,7 @@ func (c *checker) handleViolations(bin string, br *batchResult, extraEnv []strin
 				attempts = 3 // the detector keeps a bounded access history: a report can be missed, never invented
 			}
 			for _, e := range extraEnv {
-				if strings.HasPrefix(e, "VERIF_GCPERCENT=") {
+				if strings.HasPrefix(e, "VERIF_GCPERCENT=") || e == "VERIF_GCASYNC=1" {
 					attempts = 4
 				}
 			}
@@ -904,7 +904,7 @@ func (c *checker) handleViolations(bin string, br *batchResult, extraEnv []strin
 			tries = 6
 		}
 		for _, e := range extraEnv {
-			if strings.HasPrefix(e, "VERIF_GCPERCENT=") {
+			if strings.HasPrefix(e, "VERIF_GCPERCENT=") || e == "VERIF_GCASYNC=1" {
 				tries = 10
 			}
 		}
@@ -1014,6 +1014,15 @@ func (c *checker) worldCheck() (map[string]any, int, int) {
 			br.runs += pb.runs
 			br.steps += pb.steps
 			br.records = append(br.records, pb.records...)
+			// supplementary: collections STARTED at statement points on another goroutine
+			// while the operation continues (overlap with the concurrent mark phase;
+			// non-deterministic timing, findings must reproduce on re-execution)
+			aenv := append(append([]string{}, penv...), "VERIF_GCASYNC=1", "VERIF_PROCS=4", "VERIF_GCPERCENT_OFF=1", "VERIF_GROWBIAS=1")
+			ab := c.runBatch(pbin, "main", max(200, N/4), aenv)
+			c.handleViolations(pbin, ab, aenv)
+			pointsInfo["async_collection_batch"] = map[string]any{"runs": ab.runs, "events": ab.events, "note": "not deterministic; confirmation by re-execution (up to 10 attempts)"}
+			br.runs += ab.runs
+			br.steps += ab.steps
 		}
 	}
 	cov["statement_points"] = pointsInfo
